@@ -733,8 +733,17 @@ pub fn cases() -> Vec<Case> {
 /// Child mode: run every case, journal to stdout.
 pub fn child() -> ! {
 	let cs = cases();
+	let start: usize = std::env::args().nth(2).and_then(|s| s.parse().ok()).unwrap_or(0);
 	let stdout = std::io::stdout();
+	{
+		let mut o = stdout.lock();
+		let _ = writeln!(o, "CASES {}", cs.len());
+		let _ = o.flush();
+	}
 	for (i, (name, f)) in cs.iter().enumerate() {
+		if i < start {
+			continue;
+		}
 		{
 			let mut o = stdout.lock();
 			let _ = writeln!(o, "BEGIN {} {}", i, name);
@@ -770,12 +779,91 @@ pub fn check(tier: &str) -> ! {
 	let mut rep = Report::new("C16", tier, "exploration");
 	rep.assumptions = vec!["payloads are tokens with a side table of drop counters (production parking_lot raw locks); a case runs on a fresh thread inside a child process so that a double free cannot take the checker down".into()];
 	let exe = std::env::current_exe().expect("exe");
-	let out = std::process::Command::new(exe).arg("C16-child").output().expect("spawn child");
-	let text = String::from_utf8_lossy(&out.stdout).to_string();
+	// The child journals BEGIN/END per case. A child that dies or stops journalling (a hang: corrupted production
+	// locks block for ever) is killed; the case it was in is reported and a new child resumes behind it.
+	let mut text = String::new();
+	let mut start = 0usize;
+	let mut total_cases = usize::MAX;
+	let mut dead_cases: Vec<(String, String)> = vec![];
+	let mut last_status;
+	while start < total_cases {
+		use std::io::BufRead;
+		let mut ch = std::process::Command::new(&exe).arg("C16-child").arg(start.to_string()).stdout(std::process::Stdio::piped()).stderr(std::process::Stdio::piped()).spawn().expect("spawn child");
+		let so = ch.stdout.take().unwrap();
+		let (tx, rx) = std::sync::mpsc::channel::<String>();
+		let reader = std::thread::spawn(move || {
+			for l in std::io::BufReader::new(so).lines().map_while(Result::ok) {
+				if tx.send(l).is_err() {
+					break;
+				}
+			}
+		});
+		let mut current: Option<(usize, String)> = None;
+		let mut hung = false;
+		loop {
+			match rx.recv_timeout(std::time::Duration::from_secs(8)) {
+				Ok(l) => {
+					if let Some(n) = l.strip_prefix("CASES ") {
+						total_cases = n.trim().parse().unwrap_or(0);
+					} else if let Some(rest) = l.strip_prefix("BEGIN ") {
+						let (i, name) = rest.split_once(' ').unwrap_or((rest, ""));
+						current = Some((i.parse().unwrap_or(0), name.to_string()));
+					} else if l.starts_with("END ") {
+						if let Some((i, _)) = &current {
+							start = i + 1;
+						}
+						current = None;
+					}
+					text.push_str(&l);
+					text.push('\n');
+				}
+				Err(std::sync::mpsc::RecvTimeoutError::Timeout) => {
+					hung = true;
+					let _ = ch.kill();
+					break;
+				}
+				Err(std::sync::mpsc::RecvTimeoutError::Disconnected) => break,
+			}
+		}
+		let st = ch.wait();
+		let _ = reader.join();
+		last_status = format!("{:?}", st);
+		match current {
+			Some((i, name)) => {
+				dead_cases.push((name, if hung { "no progress for 8 s (hang); killed".to_string() } else { format!("the child process died ({})", last_status) }));
+				text.push_str("ABANDONED\n");
+				start = i + 1;
+				if dead_cases.len() >= 6 {
+					// enough evidence; every further hang costs the watchdog interval
+					rep.notes.push(format!("stopped after {} crashed / hung cases; cases {}.. were not run", dead_cases.len(), start));
+					rep.exhaustive = false;
+					break;
+				}
+			}
+			None => {
+				if start < total_cases && !hung && total_cases != usize::MAX {
+					// the child ended between cases without finishing: do not loop for ever
+					rep.machinery.push(format!("C16 child ended early at case {} of {} ({})", start, total_cases, last_status));
+					break;
+				}
+				if total_cases == usize::MAX {
+					rep.machinery.push(format!("C16 child produced no journal ({})", last_status));
+					break;
+				}
+			}
+		}
+	}
+	for (name, why) in &dead_cases {
+		rep.violation(Viol { prop: "C16".into(), key: format!("crash|{}", name.split('[').next().unwrap_or("")), detail: format!("case `{}`: {}", name, why), replay: json!({"kind": "drops", "case": name}) });
+	}
 	let mut begun: Option<(usize, String)> = None;
 	let mut kinds = BTreeSet::new();
 	let mut tokens_total = 0u64;
 	for line in text.lines() {
+		if line == "ABANDONED" {
+			begun = None;
+			continue;
+		}
 		if let Some(rest) = line.strip_prefix("BEGIN ") {
 			let (i, name) = rest.split_once(' ').unwrap_or((rest, ""));
 			begun = Some((i.parse().unwrap_or(0), name.to_string()));
@@ -805,11 +893,7 @@ pub fn check(tier: &str) -> ! {
 			}
 		}
 	}
-	if let Some((_, name)) = begun {
-		rep.violation(Viol { prop: "C16".into(), key: format!("crash|{}", name.split('[').next().unwrap_or("")), detail: format!("the child process died (status {:?}) inside case `{}`: {}", out.status, name, String::from_utf8_lossy(&out.stderr).lines().last().unwrap_or("")), replay: json!({"kind": "drops", "case": name}) });
-	} else if !out.status.success() {
-		rep.machinery.push(format!("C16 child exited with {:?}", out.status));
-	}
+	let _ = begun;
 	rep.set("distinct_nontrivial", kinds.len() as u64);
 	rep.set("tokens_tracked", tokens_total);
 	rep.set("rule", "every owning shape (Owned / Boxed / Retrying x Vec / array / boxed slice / tuple / nested, sizes 0..4, Mutex and RwLock leaves, Poisonable) x construction path (new, from, from_iter, try_new accepted, try_new REJECTED with an owned member, default, extend, new_ref / Ref::new borrowing) x destruction path (drop, into_child, into_inner, into_iter fully / partially consumed, get_mut, leaked guard then drop, write under lock then into_inner); oracle: every token's drop counter is exactly 1 and returned values sit at the declared positions with the last written value. Non-trivial = cases that track at least one token");
